@@ -69,7 +69,8 @@ def ob_modes(n, m, shape, n_trials):
     def f():
         with env(stubs.pool_layer(), allow_seed=True):
             L = shape_len(shape, n, m)
-            entries = [sym.choice(f"mode{k}", ALPHABET) for k in range(L)]
+            alphabet = ALPHABET if L <= 5 else ["serial", "thread", "bogus"]          # 3^6 instead of 4^6 paths
+            entries = [sym.choice(f"mode{k}", alphabet) for k in range(L)]
             modes = None if shape == "none" else tuple(entries)
             log = []
             algos, tasks = make_algos(n, log), make_tasks(m)
@@ -177,7 +178,7 @@ def obligations(tier):
                 if shape_len(shape, n, m) > cap:
                     continue
                 nt = 2 if n * m <= 2 else 1
-                obs.append(Ob(f"modes[n={n},m={m},{shape}]", ob_modes(n, m, shape, nt), 900))
+                obs.append(Ob(f"modes[n={n},m={m},{shape}]", ob_modes(n, m, shape, nt), 900 if n * m <= 4 else 3000))
     obs.append(Ob("bad_shapes", ob_bad_shapes(), 60))
     for n in (1, 2, 3):
         obs.append(Ob(f"export[n={n},csv]", ob_export(n, "csv"), 120))
